@@ -161,6 +161,52 @@ func VH_C17_settings() {
 	}
 }
 
+// VH_C17_constraints: a collection stored with constraint set c1 on a
+// string field is re-created with c2: refused with ErrFieldDescModif, files
+// untouched, iff c1 != c2; accepted (and data preserved) iff equal.
+func VH_C17_constraints() {
+	type vGuardC struct {
+		Item
+		A int64 `sod:"index"`
+		B string
+	}
+	sets := []Constraints{
+		{},
+		{Index: true},
+		{Index: true, Unique: true},
+		{Index: true, Lower: true},
+		{Index: true, Upper: true},
+		{Lower: true},
+		{Upper: true},
+		{Index: true, Unique: true, Lower: true},
+		{Index: true, Unique: true, Upper: true},
+	}
+	k1 := vChoice("c1", len(sets))
+	k2 := vChoice("c2", len(sets))
+	root := vTempDir()
+	db := Open(root)
+	LowercaseNames = false
+	fds := FieldDescriptors(&vGuardC{})
+	vAssert("C17.cons.setup", fds.Constraint("B", sets[k1]) == nil)
+	vAssert("C17.cons.create", db.Create(&vGuardC{}, NewCustomSchema(fds, DefaultExtension)) == nil)
+	o := &vGuardC{A: vInt64("A"), B: "b"}
+	vAssert("C17.cons.insert", db.InsertOrUpdate(o) == nil)
+	vAssert("C17.cons.close", db.Close() == nil)
+	before := vFsFingerprint(root)
+	db = Open(root)
+	fds2 := FieldDescriptors(&vGuardC{})
+	vAssert("C17.cons.setup2", fds2.Constraint("B", sets[k2]) == nil)
+	err := db.Create(&vGuardC{}, NewCustomSchema(fds2, DefaultExtension))
+	if k1 != k2 {
+		vAssert("C17.cons.refused", errors.Is(err, ErrFieldDescModif))
+		vAssert("C17.cons.files_untouched", vFsFingerprint(root) == before)
+	} else {
+		vAssert("C17.cons.same_accepted", err == nil)
+		_, gerr := db.GetByUUID(&vGuardC{}, o.UUID())
+		vAssert("C17.cons.data_preserved", gerr == nil)
+	}
+}
+
 // VH_C17_toggle: Create with a compatible schema may switch cache and
 // asynchronous-write settings at any time without losing pending writes
 // or disturbing the running process.
